@@ -69,7 +69,7 @@ _RE_COV    = re.compile(r'^<(\w+) line \d+, col \d+ to line \d+, col \d+ of modu
 
 def run(spec, module, cfg, workers=16, timeout=600, simulate=None, depth=None,
         seed=None, coverage=False, env=None, extra_files=None, deque=False,
-        keep=None, dump_dir=None, max_heap='6g', deadlock=None, workdir=None):
+        keep=None, dump_dir=None, max_heap='4g', deadlock=None, workdir=None):
     '''
     spec     : directory under /verif/spec
     module   : module name (no .tla)
